@@ -196,10 +196,31 @@ def _init_worker():
     setup_paths()
 
 
+SHARD_LIMIT_S = int(os.environ.get("VERIF_SHARD_LIMIT", "900"))
+
+
+class ShardTimeout(BaseException):
+    pass
+
+
+def _alarm(signum, frame):
+    raise ShardTimeout()
+
+
 def _call(args):
+    import signal
+
     fn, shard = args
     try:
-        return ("ok", shard, fn(shard))
+        signal.signal(signal.SIGALRM, _alarm)
+        signal.setitimer(signal.ITIMER_REAL, SHARD_LIMIT_S)
+        try:
+            return ("ok", shard, fn(shard))
+        finally:
+            signal.setitimer(signal.ITIMER_REAL, 0)
+    except ShardTimeout:
+        return ("err", shard, f"shard did not finish within {SHARD_LIMIT_S} s (an execution of the code under test does not "
+                              f"terminate, or the machine is overloaded) - no verdict")
     except BaseException:  # a crash of the harness itself is a hard error, never a verdict
         return ("err", shard, traceback.format_exc())
 
